@@ -252,12 +252,15 @@ P_C10 == /\ Quiescent => \A qi \in 1..QLen : ~(obs[qi].k = "nt" /\ obs[qi].e = "
                                      /\ obs[qj].k = "en" /\ obs[qj].id = obs[qi].m /\ obs[qj].i = obs[qi].i
                                      /\ ~\E qk \in (qj+1)..(qi-1) : obs[qk].k = "pei" /\ obs[qk].m = obs[qi].m
                    IN qn # {} => (obs[CHOOSE qj \in qn : \A qk \in qn : qj <= qk].e = "none" \/ qexcF8)
-         \* backmp11: after a transition into a state with completion rows the machine's next dispatch is the completion dispatch
+         \* backmp11: after a transition into a state with completion rows, once the process_event_internal that took the transition
+         \* has finished (the other regions are still offered the same occurrence), the machine's next dispatch is a completion dispatch
          /\ (Quiescent /\ IsM) => \A qi \in 1..QLen :
-               (obs[qi].k = "taken" /\ ~obs[qi].r /\ ~IsSub(obs[qi].m, obs[qi].id) /\ StateHasCompl(obs[qi].m, obs[qi].id)) =>
-                   LET qn == { qj \in (qi+1)..QLen : obs[qj].k = "disp" /\ obs[qj].m = obs[qi].m /\ obs[qj].i = obs[qi].i } IN
-                   qn # {} => LET qf == CHOOSE qj \in qn : \A qk \in qn : qj <= qk IN
-                              (obs[qf].e = "none" /\ obs[qf].id = obs[qi].id) \/ (obs[qf].x = obs[qi].x /\ obs[qf].e = obs[qi].e)
+               (obs[qi].k = "taken" /\ ~obs[qi].r /\ ~IsSub(obs[qi].m, obs[qi].id) /\ StateHasCompl(obs[qi].m, obs[qi].id) /\ ~sawexc[obs[qi].i]) =>
+                   LET qsame(qx) == obs[qx].m = obs[qi].m /\ obs[qx].i = obs[qi].i
+                       qopen == { qj \in 1..(qi-1) : obs[qj].k = "pei" /\ qsame(qj) /\ QPeiEnd(obs, qj+1, 0) > qi }
+                       qfrom == IF qopen = {} THEN qi ELSE QPeiEnd(obs, (CHOOSE qj \in qopen : \A qk \in qopen : qj >= qk) + 1, 0)
+                       qn == { qj \in (qfrom+1)..QLen : obs[qj].k = "disp" /\ qsame(qj) }
+                   IN (qfrom # 0 /\ qn # {}) => obs[CHOOSE qj \in qn : \A qk \in qn : qj <= qk].e = "none"
 
 \* ---------------------------------------------------------------- C11: blocking states
 P_C11 == (Quiescent /\ lastcall.op = "pe" /\ pre.blocked /\ pre.quiet) =>
@@ -337,7 +340,9 @@ QEntryOK(qo, qi) ==
    LET qj == QTakenPos(qo, qi)
        qrow == QRowOfTake(qo[qi])
        qs == qrow.tgt
-       qwin == QOutsidePei(qo, qi+1, qj, <<>>)
+       qdisps == { qx \in (qi+1)..qj : qo[qx].k = "disp" }      \* backmp11 drains the pool (completion events first) inside the submachine's entry
+       qend == IF qdisps = {} THEN qj ELSE CHOOSE qx \in qdisps : \A qy \in qdisps : qx <= qy
+       qwin == QOutsidePei(qo, qi+1, qend, <<>>)
        qens == SelectSeq(qwin, LAMBDA qx : qo[qx].k = "en" /\ qo[qx].m = qs /\ qo[qx].i = qo[qi].i)
        qgot == [qq \in 1..Len(qens) |-> qo[qens[qq]].id]
        qwant == QRestore(qo[qi].i, qs, qo[qi].e, qrow.named)
